@@ -175,7 +175,8 @@ func ruleC11_6(c *Ctx) {
 						continue
 					}
 					a4 := newA4(c.Prog)
-					for _, w := range a4.analyse(g, ctx, nil).writes {
+					keptW, _ := a4FilterReviewed(a4.analyse(g, ctx, nil).writes)
+					for _, w := range keptW {
 						bad = append(bad, fmt.Sprintf("%s writes %s at %s", calleeName(x), w.path, c.pos(w.instr.Pos())))
 					}
 				}
@@ -314,4 +315,216 @@ func ruleC17_9(c *Ctx) {
 		}
 	}
 	c.check(n >= 1, R, "in_toto", "RuneError comparisons found", 0, fmt.Sprintf("%d", n), "no comparison of a decoded rune with utf8.RuneError in the matcher (malformed UTF-8 in a class is not detected)")
+}
+
+// ---------------------------------------------------------------------------
+// round 6 of the seeded changes
+
+// R-C13-7: the recording options of the three link-producing entry points reach RecordArtifacts in their declared
+// positions. Callers bind the options positionally (…, hashAlgorithms, gitignorePatterns, lStripPaths,
+// lineNormalization, followSymlinkDirs, …); in each of InTotoRun, InTotoRecordStart and InTotoRecordStop the k-th
+// []string option and the k-th bool option after the paths must be passed to RecordArtifacts' k-th []string / bool
+// parameter — the same mapping in all three siblings.
+func init() {
+	for _, id := range []string{"C13", "C09"} {
+		if p := registry[id]; p != nil {
+			p.Rules = append(p.Rules, Rule{ID: "R-C13-7", Doc: "recording options reach RecordArtifacts in their declared positions (sibling agreement)", Min: 3, Run: ruleC13_7})
+		}
+	}
+	if p := registry["C13"]; p != nil {
+		p.Explanation += " (R-C13-7) in InTotoRun, InTotoRecordStart and InTotoRecordStop the hash algorithm / exclude / strip-prefix lists and the line-normalisation / follow-symlink flags are passed to RecordArtifacts in the order in which the functions declare them."
+	}
+}
+
+func ruleC13_7(c *Ctx) {
+	const R = "R-C13-7"
+	ra := c.lookup("in_toto.RecordArtifacts")
+	if ra == nil {
+		c.undecided(R, "in_toto.RecordArtifacts", "anchor", 0, "not found")
+		return
+	}
+	for _, name := range []string{"in_toto.InTotoRun", "in_toto.InTotoRecordStart", "in_toto.InTotoRecordStop"} {
+		f := c.lookup(name)
+		if f == nil {
+			c.undecided(R, name, "anchor", 0, "not found")
+			continue
+		}
+		// the option parameters of f in declaration order: []string lists that are not the recorded paths, bools
+		for _, call := range callsIn(f, "in_toto.RecordArtifacts") {
+			args := call.Common().Args
+			// RecordArtifacts(paths, hashAlgorithms, gitignorePatterns, lStripPaths, lineNormalization, followSymlinkDirs)
+			var listParams, boolParams []*ssa.Parameter
+			pathsPrm, _ := resolve(args[0], call).(*ssa.Parameter)
+			for _, prm := range f.Params {
+				switch typeStr(prm.Type()) {
+				case "[]string":
+					listParams = append(listParams, prm)
+				case "bool":
+					boolParams = append(boolParams, prm)
+				}
+			}
+			// the lists that are recording options: those after the last path list / command list, i.e. the last three
+			okLists := len(listParams) >= 3
+			var got []string
+			if okLists {
+				opts := listParams[len(listParams)-3:]
+				for k := 0; k < 3; k++ {
+					got = append(got, org(args[1+k]))
+					if resolve(args[1+k], call) != ssa.Value(opts[k]) {
+						okLists = false
+					}
+				}
+			}
+			okBools := len(boolParams) >= 2
+			if okBools {
+				for k := 0; k < 2; k++ {
+					got = append(got, org(args[4+k]))
+					if resolve(args[4+k], call) != ssa.Value(boolParams[k]) {
+						okBools = false
+					}
+				}
+			}
+			what := "RecordArtifacts options in declared order"
+			if pathsPrm != nil {
+				what += " (" + pathsPrm.Name() + ")"
+			}
+			c.check(okLists && okBools, R, name, what, call.Pos(), "hashAlgorithms, gitignorePatterns, lStripPaths, lineNormalization, followSymlinkDirs = the function's last three []string and first two bool parameters, in order",
+				"the recording options are passed to RecordArtifacts in another order than the function declares them ("+strings.Join(got, ", ")+"): callers bind them positionally, so e.g. the line-normalisation and follow-symlink switches are exchanged")
+		}
+	}
+}
+
+// R-C09-2 extension (registered as R-C09-7): inspections record the whole run directory with sha256, nothing excluded,
+// nothing stripped.
+func init() {
+	if p := registry["C09"]; p != nil {
+		p.Rules = append(p.Rules, Rule{ID: "R-C09-7", Doc: "inspections record with sha256, no exclude patterns and no strip prefixes", Min: 3, Run: func(c *Ctx) {
+			const R = "R-C09-7"
+			f := c.lookup("in_toto.RunInspections")
+			if f == nil {
+				c.undecided(R, "in_toto.RunInspections", "anchor", 0, "not found")
+				return
+			}
+			rs := c.stage(f, "in_toto.InTotoRun")
+			if rs == nil {
+				c.bad(R, fname(f), "InTotoRun", f.Pos(), "inspection commands are not executed through InTotoRun")
+				return
+			}
+			a := rs.call.Common().Args
+			// InTotoRun(name, runDir, materialPaths, productPaths, cmdArgs, key, hashAlgorithms, gitignorePatterns, lStripPaths, ...)
+			algs := ""
+			derives(a[6], func(v ssa.Value) bool {
+				if s, ok := constString(v); ok {
+					algs += s + " "
+				}
+				return false
+			}, false)
+			c.check(strings.TrimSpace(algs) == "sha256", R, fname(f), "hash algorithms = [sha256]", rs.call.Pos(), algs, "inspections hash with ["+strings.TrimSpace(algs)+"]")
+			c.check(isNilConst(resolve(a[7], rs.call)), R, fname(f), "no exclude patterns", rs.call.Pos(), "nil", "inspections exclude files ("+short(org(a[7]))+"): what the inspection rules see is not the whole directory — files can be added or changed unnoticed")
+			c.check(isNilConst(resolve(a[8], rs.call)), R, fname(f), "no strip prefixes", rs.call.Pos(), "nil", "inspection artifacts are recorded with stripped prefixes ("+short(org(a[8]))+")")
+		}})
+		p.Explanation += " (R-C09-7) RunInspections records with sha256 only, without exclude patterns and without strip prefixes."
+	}
+}
+
+// R-C14-7: the exit status that is recorded is exactly what the operating system reported: the value returned by
+// waitErrToExitCode is the constant 0 (no error), the constant -1 (no status available) or the unmodified result of
+// WaitStatus.ExitStatus().
+func init() {
+	if p := registry["C14"]; p != nil {
+		p.Rules = append(p.Rules, Rule{ID: "R-C14-7", Doc: "the exit status is handed through unmodified", Min: 3, Run: func(c *Ctx) {
+			const R = "R-C14-7"
+			f := c.lookup("in_toto.waitErrToExitCode")
+			if f == nil {
+				c.undecided(R, "in_toto.waitErrToExitCode", "anchor", 0, "not found")
+				return
+			}
+			n := 0
+			var walk func(v ssa.Value, at token.Pos, depth int)
+			seen := map[ssa.Value]bool{}
+			walk = func(v ssa.Value, at token.Pos, depth int) {
+				if seen[v] || depth > 10 {
+					return
+				}
+				seen[v] = true
+				if ph, ok := v.(*ssa.Phi); ok {
+					for _, e := range ph.Edges {
+						walk(e, at, depth+1)
+					}
+					return
+				}
+				n++
+				if k, ok := constInt(v); ok {
+					c.check(k == 0 || k == -1, R, fname(f), fmt.Sprintf("constant result %d", k), at, "0 = success, -1 = no status", fmt.Sprintf("the status conversion returns the constant %d", k))
+					return
+				}
+				call, isCall := v.(*ssa.Call)
+				okRaw := isCall && strings.HasSuffix(calleeName(call), ".ExitStatus")
+				pos := at
+				if in, ok := v.(ssa.Instruction); ok && in.Pos() != token.NoPos {
+					pos = in.Pos()
+				}
+				c.check(okRaw, R, fname(f), "status taken from WaitStatus.ExitStatus() as is", pos, "unmodified", "the recorded exit status is "+short(org(v))+", not the unmodified WaitStatus.ExitStatus(): distinct outcomes (a signal's -1, exit 255) can collapse into one value")
+			}
+			for _, r := range returnsOf(f) {
+				walk(r.Results[0], instrPos(r), 0)
+			}
+			c.check(n >= 3, R, fname(f), "result leaves", f.Pos(), fmt.Sprintf("%d", n), "the status conversion does not distinguish success / status / no status")
+		}})
+		p.Explanation += " (R-C14-7) waitErrToExitCode returns 0, -1 or the unmodified WaitStatus.ExitStatus()."
+	}
+}
+
+// R-C07-6 extension (registered as R-C07-8): the URI attribute is compared on the certificate's URIs rendered with
+// (*url.URL).String — the exact value, including user information.
+func init() {
+	if p := registry["C07"]; p != nil {
+		p.Rules = append(p.Rules, Rule{ID: "R-C07-8", Doc: "certificate URIs are compared as their exact string form", Min: 1, Run: func(c *Ctx) {
+			const R = "R-C07-8"
+			f := c.lookup("in_toto.urisToStrings")
+			if f == nil {
+				c.undecided(R, "in_toto.urisToStrings", "anchor", 0, "not found")
+				return
+			}
+			n := 0
+			for _, ap := range callsIn(f, "builtin:append") {
+				cc := ap.(*ssa.Call)
+				if len(cc.Call.Args) < 2 {
+					continue
+				}
+				n++
+				ok := false
+				derives(cc.Call.Args[1], func(v ssa.Value) bool {
+					if k, isCall := v.(*ssa.Call); isCall {
+						if calleeName(k) == "(*net/url.URL).String" && org(k.Call.Args[0]) == "p0[*]" {
+							ok = true
+						}
+					}
+					return false
+				}, false)
+				c.check(ok, R, fname(f), "element = uri.String()", ap.Pos(), "(*url.URL).String of every certificate URI", "a certificate URI is rendered as "+short(org(cc.Call.Args[1]))+" before it is compared with the constraint: Redacted / Path / Host forms make different URIs equal and the exact one unequal")
+			}
+			c.check(n == 1, R, fname(f), "one append per URI", f.Pos(), "1", fmt.Sprintf("%d appends", n))
+		}})
+		p.Explanation += " (R-C07-8) urisToStrings renders every certificate URI with (*url.URL).String."
+	}
+}
+
+// shares of round 6
+func init() {
+	share := func(prop, id, doc string, min int, run func(*Ctx), expl string) {
+		if p := registry[prop]; p != nil {
+			p.Rules = append(p.Rules, Rule{ID: id, Doc: doc, Min: min, Run: run})
+			p.Explanation += " " + expl
+		}
+	}
+	share("C02", "R-C07-2", "checkRoots verifies the chain with (root pool, intermediate pool) in that order (shared with C07)", 2, ruleC07_2, "(R-C07-2, shared with C07) checkRoots hands the certificate, the root pool and the intermediate pool to VerifyCertificateTrust in that order and fails on its error.")
+	share("C03", "R-C17-7", "star scan of the glob matcher (shared with C17)", 2, ruleC17_7, "(R-C17-7/8/9, shared with C17) the glob matcher's star scan tries every byte offset, reads the name only where it is non-empty, and treats RuneError as malformed only with width 1.")
+	share("C03", "R-C17-8", "matchChunk reads the name only where it is non-empty (shared with C17)", 3, ruleC17_8, "")
+	share("C03", "R-C17-9", "RuneError counts as malformed only with width 1 (shared with C17)", 1, ruleC17_9, "")
+	share("C05", "R-C02-5", "link loader: one link per functionary key id, glob = naming format (shared with C02)", 3, ruleC02_5, "(R-C02-5, shared with C02) LoadLinksForLayout globs exactly the LinkGlobFormat names and files each link under the key id selected by the file name's 8-character prefix, so two files cannot displace each other's functionary.")
+	share("C08", "R-C02-4", "no order-dependent state / early exit in the per-link loop of the threshold check (shared with C02)", 1, a3Rule("R-C02-4", 1, nil, "in_toto.VerifyLinkSignatureThesholds", "in_toto.LoadLinksForLayout").Run, "(R-C02-4, shared with C02) every validly signed, authorized link of a step reaches VerifySublayouts: the per-link loop of the threshold check is not left early.")
+	share("C11", "R-C12-2", "required-member check (shared with C12): only an absent key is refused", 3, ruleC12_2, "(R-C12-2, shared with C12) the loader refuses a member only when its key is absent, so the null the writers emit for nil collections loads back.")
+	share("C12", "R-C06-2", "expiry format agreement of validator and verifier (shared with C06)", 5, ruleC06_2, "(R-C06-2, shared with C06) validateLayout parses Expires with the same constant layout as the expiry check.")
+	share("C19", "R-C16-4", "no function returns package-level memory (shared with C16)", 1, ruleC16_4, "(R-C16-4, shared with C16) loaded keys do not share a package-level default list (key id hash algorithms) with each other.")
 }
